@@ -35,7 +35,9 @@ CONSTANTS
     ATypes,      \* subset of {"p2kh", "segwit", "bech32", "tap", "pks"}
     Nets,        \* subset of BOOLEAN (testnet?)
     PassKinds,   \* classes of seed passwords (the concretiser's business): "ascii", "nonascii", "long", "prefixed" ...
-    Mnems,       \* classes of user mnemonics for bip39 = -1: "plain", "messy", "pass", "badsum", "badword"
+    Mnems,       \* classes of user mnemonics for bip39 = -1: "plain", "messy", "badsum", "badword", and with a BIP39 passphrase
+                 \* (-p39; used verbatim by PBKDF2): "pass", "pass_space", "pass_lead", "pass_trail", "pass_tab", "pass_nl",
+                 \* "pass_inner", "pass_nonascii" - how each is typed and what reaches BIP39 is the concretiser's table
     EntTable,    \* sequence of [ent : sequence of bytes, cs : first byte of SHA-256(ent)] for the BIP39 bit-level part
     Bug          \* "none" or the name of a deliberately broken rule
 
